@@ -7,7 +7,7 @@ import tempfile
 from hypothesis import strategies as st
 
 from vlib import enc_ods
-from vlib.runner import HarnessError, norm_message
+from vlib.runner import HarnessError, norm_message, reused_dir
 
 import cutplace
 from cutplace import errors, interface, rowio
@@ -162,6 +162,8 @@ def fault_cases(draw):
             case["row_pick"] = "last"
     elif fault == "missing-sheet":
         case["beyond"] = draw(st.sampled_from([1, 1, 2, 7, 120]))
+        if draw(st.integers(0, 2)) == 0:
+            case["sheets"] = []  # a well-formed document without any sheet: every sheet number is missing
     elif fault == "not-zip":
         case["junk"] = draw(st.binary(min_size=0, max_size=40)).hex()
     return case
@@ -389,7 +391,7 @@ def check_table_case(sub, case):
     canons = [enc_ods.canon(table) for table in sheets]
     if len(sheets) > 1 and len(set(repr(c) for c in canons)) == len(sheets):
         classes.append("sheets:all-distinct")
-    tmpdir = tempfile.mkdtemp(prefix="c15-")
+    tmpdir = reused_dir("c15")
     try:
         path = _write(tmpdir, built["archive"])
         for index in range(len(sheets)):
@@ -484,7 +486,7 @@ def check_fault_case(sub, case):
     only = case.get("only")
     classes = set(["fault:" + fault])
     instances = 0
-    tmpdir = tempfile.mkdtemp(prefix="c15-")
+    tmpdir = reused_dir("c15")
     try:
         if fault == "truncated":
             data = _build(case)["archive"]
@@ -657,6 +659,8 @@ for _kind in FAULT_KINDS:
         continue
     if _kind == "missing-sheet":
         _case["beyond"] = 1
+        CORPUS.append(dict(_case, sheets=[]))
+        CORPUS.append(dict(_case, sheets=[], beyond=2))
     CORPUS.append(_case)
 
 
